@@ -289,6 +289,9 @@ def drvStep0 (d : Drv) (args : List String) : Drv × String :=
 /-- after every op the goroutines of the registrations it cancelled wind down (`flush`) -/
 def drvStep (d : Drv) (args : List String) : Drv × String :=
   let r := drvStep0 d args
-  ({ r.1 with accts := r.1.accts.map fun s => (step s .flush).1 }, r.2)
+  let accts := r.1.accts.map fun s => (step s .flush).1
+  -- the pending batch is gone once no account has a staged copy any more (a spend handler committed it)
+  ({ r.1 with accts := accts,
+              batch := r.1.batch.filter fun j => ((accts.find? (·.key == j)).bind (·.staged)).isSome }, r.2)
 
 end Pool.C08
